@@ -25,6 +25,7 @@ import Osmium.Lemmas.OplFmtCs
 import Osmium.Lemmas.OplSpecFile2
 import Osmium.Lemmas.XmlFmtCsFile
 import Osmium.Generated.Consts
+import Osmium.Lemmas.SrcTie
 
 namespace Osmium.C01Text
 open Osmium.Osm Osmium.TextFmt Osmium.Conv
@@ -444,5 +445,45 @@ example : valid ⟨-1800000000, -900000000⟩ = true ∧ valid ⟨1800000000, 90
 theorem consts_tie_text :
     Osmium.OplFmt.maxString = Osmium.Generated.Consts.maxOsmStringLength ∧ Osmium.Generated.Consts.oplHexMaxLength * 4 = 8 ∧
     Osmium.Generated.Consts.coordinatePrecision = 10000000 ∧ (Osmium.Generated.Consts.undefinedCoordinate : Int) = Osmium.Osm.Location.undefinedCoordinate := by decide
+
+/-! ### source ties (tools/cxx2lean.py): `osm/item_type.hpp` translated from the source (`switch` statements) -/
+section SrcTies
+open Osmium.Generated Osmium.CxxSem Osmium.SrcTie
+
+/-- `item_type_to_char` (a 13-way `switch`) on the member types and `undefined` = the writer models' `typeChar` -/
+theorem src_tie_item_type_to_char (t : Nat) (ht : t ≤ 3) :
+    Src.ItemType.item_type_to_char (t : Int) = ((typeChar t).toNat : Int) := by
+  have h : t = 0 ∨ t = 1 ∨ t = 2 ∨ t = 3 := by omega
+  rcases h with rfl | rfl | rfl | rfl <;> decide
+
+/-- `char_to_item_type` followed by the OPL parser's test `type != node && type != way && type != relation`
+    (opl_parse_relation_members) = the parser models' `charType` (0 = rejected), for EVERY byte -/
+theorem src_tie_char_to_item_type_fin (n : Fin 256) :
+    (charType n.val.toUInt8 : Int) =
+      (if Src.OplParserFunctions.opl_member_type_unknown (Src.ItemType.char_to_item_type (charOfByte n.val)) then 0
+       else Src.ItemType.char_to_item_type (charOfByte n.val)) := by
+  revert n; decide +kernel
+
+theorem src_tie_char_to_item_type (c : UInt8) :
+    (charType c : Int) =
+      (if Src.OplParserFunctions.opl_member_type_unknown (Src.ItemType.char_to_item_type (charOfByte c.toNat)) then 0
+       else Src.ItemType.char_to_item_type (charOfByte c.toNat)) := by
+  have h := src_tie_char_to_item_type_fin ⟨c.toNat, c.toNat_lt⟩
+  simpa using h
+
+/-- the two conversions are inverse on every enumerator of `item_type` (the 13 values the `switch`es name) -/
+theorem src_tie_item_type_char_roundtrip :
+    ∀ t ∈ [0, 1, 2, 3, 4, 5, 0x11, 0x12, 0x13, 0x23, 0x40, 0x41, 0x80],
+      Src.ItemType.item_type_to_char_typed t = true ∧
+      (t ≠ 0 → Src.ItemType.char_to_item_type (Src.ItemType.item_type_to_char t) = t) := by decide
+
+/-- `item_type_to_nwr_index` / `nwr_index_to_item_type` on their documented domains -/
+theorem src_tie_nwr_index (i : Nat) (hi : i ≤ 2) :
+    Src.ItemType.nwr_index_to_item_type i = (i : Int) + 1 ∧
+    Src.ItemType.item_type_to_nwr_index ((i : Int) + 1) = i := by
+  have h : i = 0 ∨ i = 1 ∨ i = 2 := by omega
+  rcases h with rfl | rfl | rfl <;> decide
+
+end SrcTies
 
 end Osmium.C01Text
